@@ -1244,12 +1244,52 @@ impl<'c, W: WorldDriver> Session<'c, W> {
                 let from_closure = !matches!(path, LookupPath::WToDirect | LookupPath::AToDirect);
                 self.register_direct(si, a, rec.raw, d, from_closure, o.index)?;
                 self.count("mints", 1);
+                if from_closure && self.sims.len() >= 2 && !key.is_direct() {
+                    self.mint_alternating(si, a, &rec, key, how & 1 == 1)?;
+                }
                 Ok(())
             }
             (true, None) => Err(self.fail(tags, "mint-rejected-live", format!("{:?} with {} rejected live handle {:?} of {}", path, key.kind_name(), rec.raw, self.infos[a].name))),
             (false, Some(_)) => Err(self.fail(&["C01"], "mint-accepted-stale", format!("{:?} with {} accepted stale handle {:?} of {}", path, key.kind_name(), rec.raw, self.infos[a].name))),
             (false, None) => Ok(()),
         }
+    }
+
+    /// The find macros must evaluate their world argument exactly once: with an argument that
+    /// yields this world first and ANOTHER world afterwards, everything the closure receives must
+    /// still come from this world (values, handle, and a direct handle valid here and now).
+    fn mint_alternating(&mut self, si: usize, a: usize, rec: &HandleRec, key: Key, borrow: bool) -> R {
+        let oi = (si + 1) % self.sims.len();
+        let (lo, hi) = (si.min(oi), si.max(oi));
+        let r = {
+            let (l, r) = self.sims.split_at_mut(hi);
+            let (w1, w2) = if si < oi { (&mut l[lo].w, &mut r[0].w) } else { (&mut r[0].w, &mut l[lo].w) };
+            catch(|| W::find_alternating(w1, w2, a, borrow, key))
+        };
+        let what = if borrow { "ecs_find_borrow!" } else { "ecs_find!" };
+        let (obs, evals) = match r {
+            Ok(t) => t,
+            Err(m) => return Err(self.fail(&["C09", "C01"], "find-alternating-panic", format!("{} with a world argument that yields another world when evaluated again panicked: {}", what, m))),
+        };
+        self.label("find_with_alternating_world_expression");
+        let e = match self.sims[si].archs[a].live.get(&rec.raw) {
+            Some(e) => e.clone(),
+            None => return Ok(()),
+        };
+        let o = match obs {
+            Some(o) => o,
+            None => return Err(self.fail(&["C01", "C09"], "find-alternating-missed", format!("{} (world argument evaluated {} times) did not find live entity {:?} of the world its argument yielded first", what, evals, rec.raw))),
+        };
+        if o.raw != Some(rec.raw) || o.vals != e.vals || o.trk != e.trk {
+            return Err(self.fail(&["C02", "C09"], "find-alternating-values", format!("{} evaluated its world argument {} times and handed the closure data of another world: handle {:?} stamps {:x?}, expected {:?} {:x?}", what, evals, o.raw, o.vals, rec.raw, e.vals)));
+        }
+        if let Some(d) = o.direct {
+            let got = catch(|| W::lookup(&mut self.sims[si].w, a, LookupPath::AResolveSlices, Key::DirAny(d))).ok().flatten().and_then(|o| o.raw);
+            if got != Some(rec.raw) {
+                return Err(self.fail(&["C09"], "find-alternating-direct", format!("{} evaluated its world argument {} times: the direct handle {:?} handed to the closure for {:?} {} in the world it was issued in", what, evals, d, rec.raw, match got { None => "is rejected".to_string(), Some(g) => format!("designates {:?}", g) })));
+            }
+        }
+        Ok(())
     }
 
     /// A direct handle was just issued for `ent`: it must be accepted right now and designate
